@@ -246,6 +246,10 @@ pub fn run_snap(obs: &Arc<Obs>, scenarios: &[J], out: &mut dyn Write, scratch: &
         if sc["long_lived"].as_bool().unwrap_or(false) {
             schedules = vec!["R".repeat(rn + 2) + &"W".repeat(wn + 2)];
         }
+        if sc["late_read"].as_bool().unwrap_or(false) {
+            // snapshot first (unread), then the whole writer, then the first read
+            schedules = vec!["R".repeat(rn + 1) + &"W".repeat(wn + 2) + "RR"];
+        }
         for schedule in schedules {
             let Some(engine) = prepare(&dir, &prefix) else { continue };
             let engine = Arc::new(engine);
@@ -264,10 +268,15 @@ pub fn run_snap(obs: &Arc<Obs>, scenarios: &[J], out: &mut dyn Write, scratch: &
                 }
                 wdone2.store(true, std::sync::atomic::Ordering::SeqCst);
             });
+            let late_read = sc["late_read"].as_bool().unwrap_or(false);
             let (e_r, k_r, d1c, d2c, wdone3) = (engine.clone(), keys.clone(), d1.clone(), d2.clone(), wdone.clone());
             let hr = named('R', move || {
                 nervusdb_storage::verif_hooks::sched("thread.start");
                 let snap = e_r.snapshot();
+                if late_read {
+                    // the snapshot exists but nothing has been read through it yet
+                    nervusdb_storage::verif_hooks::sched("reader.snapshot_taken");
+                }
                 let none = |_x: u64| -> Option<u32> { None };
                 *d1c.lock().unwrap() = Some(dump_snapshot(&snap, &none, &k_r));
                 // park here until the schedule is exhausted, then read the same snapshot again once
@@ -289,7 +298,7 @@ pub fn run_snap(obs: &Arc<Obs>, scenarios: &[J], out: &mut dyn Write, scratch: &
                 n_blocked += 1;
             }
             let ev = json!({"ev": "snap", "id": id, "schedule": schedule, "steps": steps,
-                            "writer": wops, "wres": *wres.lock().unwrap(),
+                            "writer": wops, "wres": *wres.lock().unwrap(), "late_read": late_read,
                             "pre": pre, "post": post,
                             "d1": d1.lock().unwrap().clone().unwrap_or(json!(null)),
                             "d2": d2.lock().unwrap().clone().unwrap_or(json!(null))});
